@@ -91,14 +91,16 @@ def main(sess):
     sess.engines = []
     sess.assumptions += [
         'kani/mode: dev-profile semantics, single thread, allocation failure out of scope (Kani default); the mode value is what lstat / the zip entry reports',
-        'owner-name lookup, xattr / capability syscalls, the digest and MIME / EXIF / media readers are library / FFI code: outside',
+        'owner-name lookup, the digest and MIME / EXIF / media readers are library / FFI code: outside; the xattr crate by its documented contract (family xattrs: which object '
+        'is asked, whether a link is dereferenced, whether the file has to be opened)',
     ]
     only = getattr(sess, 'only', None)
     if not only or 'kani' in only:
         fam_kani(sess)
-    try:
-        from drivers import c04_wiring
-        if not only or 'wiring' in only:
-            c04_wiring.run(sess)
-    except ImportError:
-        pass
+    from drivers import c04_wiring, c04_xattr, c04_location
+    if not only or 'wiring' in only:
+        c04_wiring.run(sess)
+    if not only or 'xattrs' in only:
+        c04_xattr.fam_xattrs(sess)
+    if not only or 'location' in only:
+        c04_location.fam_location(sess)
